@@ -6,6 +6,7 @@ mod dfa;
 mod facts;
 mod frontend;
 mod langdiff;
+mod lfcheck;
 mod sets;
 mod sha256;
 
@@ -18,6 +19,9 @@ usage:
   gramfacts facts <grammar.lalrpop> [--lock <Cargo.lock>] [--automata all|none|A,B,..]
                   [--features a,b] [--pretty]
   gramfacts regex2dfa [--pretty]        (stdin: JSON list of {kind: regex|literal, pattern})
+  gramfacts lfcheck [--grammar <grammar.lalrpop>] [--pretty]
+                  (stdin: JSON list of {kind: regex|literal, pattern}; with --grammar the
+                  match entries of that grammar are checked instead and stdin is not read)
   gramfacts langdiff <ref.lalrpop> <cur.lalrpop> --start NT --bound N [--drop-error-alts]
                   [--max-pairs M] [--pretty]
 exit codes: 0 ok / no difference, 1 language difference found (langdiff), 2 usage or input
@@ -196,6 +200,90 @@ fn cmd_regex2dfa(args: &[String]) {
     }
 }
 
+/// Patterns for `lfcheck`: the match entries of a grammar, or the JSON list on stdin.
+fn lfcheck_inputs(a: &Args) -> Vec<Result<(dfa::PatternKind, String), String>> {
+    if let Some(path) = a.value("--grammar") {
+        let loaded = frontend::load(
+            path,
+            &frontend::LoadOptions {
+                drop_error_alts: false,
+                features: None,
+            },
+        )
+        .unwrap_or_else(|e| fail(&e));
+        let (rows, _, _) = facts::match_rows(&loaded);
+        return rows.into_iter().map(|r| Ok((r.kind, r.pattern))).collect();
+    }
+    let mut input = String::new();
+    std::io::stdin()
+        .read_to_string(&mut input)
+        .unwrap_or_else(|e| fail(&format!("stdin: {}", e)));
+    let v: Value =
+        serde_json::from_str(&input).unwrap_or_else(|e| fail(&format!("stdin is not JSON: {}", e)));
+    let list = v
+        .as_array()
+        .unwrap_or_else(|| fail("stdin must be a JSON list"));
+    list.iter()
+        .map(|item| {
+            let kind = item.get("kind").and_then(|k| k.as_str());
+            let pattern = item.get("pattern").and_then(|k| k.as_str());
+            match (kind, pattern) {
+                (Some("regex"), Some(p)) => Ok((dfa::PatternKind::Regex, p.to_string())),
+                (Some("literal"), Some(p)) => Ok((dfa::PatternKind::Literal, p.to_string())),
+                _ => Err("entry must be {kind: \"regex\"|\"literal\", pattern: <string>}".to_string()),
+            }
+        })
+        .collect()
+}
+
+fn cmd_lfcheck(args: &[String]) {
+    // --selftest / --budget are deliberately not in USAGE (validation against the regex crate)
+    let a = parse_args(args, &["--grammar", "--budget"], &["--pretty", "--selftest"]);
+    if !a.positional.is_empty() {
+        fail(&format!("lfcheck takes no positional arguments\n{}", USAGE));
+    }
+    let budget: usize = match a.value("--budget") {
+        Some(v) => v
+            .parse()
+            .unwrap_or_else(|_| fail("--budget must be an integer")),
+        None => 4000,
+    };
+    let selftest = a.flag("--selftest");
+    let mut out = Vec::new();
+    let mut errors = 0;
+    let mut failed = 0;
+    for (i, item) in lfcheck_inputs(&a).into_iter().enumerate() {
+        let res = item.and_then(|(kind, pattern)| {
+            if selftest {
+                lfcheck::selftest(kind, &pattern, budget)
+            } else {
+                lfcheck::check_json(kind, &pattern)
+            }
+        });
+        match res {
+            Ok(v) => {
+                if selftest && v["ok"] != json!(true) {
+                    eprintln!("gramfacts: lfcheck selftest entry {} FAILED: {}", i, v["failures"]);
+                    failed += 1;
+                }
+                out.push(v)
+            }
+            Err(e) => {
+                eprintln!("gramfacts: lfcheck entry {}: {}", i, e);
+                errors += 1;
+                out.push(json!({ "error": e }));
+            }
+        }
+    }
+    emit(&Value::Array(out), a.flag("--pretty"));
+    if errors > 0 {
+        std::process::exit(2);
+    }
+    if failed > 0 {
+        std::process::exit(1);
+    }
+}
+
 fn cmd_langdiff(args: &[String]) {
     let a = parse_args(
         args,
@@ -240,6 +328,7 @@ fn main() {
     match args[0].as_str() {
         "facts" => cmd_facts(&args[1..]),
         "regex2dfa" => cmd_regex2dfa(&args[1..]),
+        "lfcheck" => cmd_lfcheck(&args[1..]),
         "langdiff" => cmd_langdiff(&args[1..]),
         "-h" | "--help" | "help" => {
             println!("{}", USAGE);
